@@ -252,6 +252,14 @@ def getRemoteStatic (S : Suite) (hs : HS) : Option Bytes :=
   if hs.rs.on then some (hs.rs.val.take S.pubLen) else none
 
 def getHandshakeHash (hs : HS) : Bytes := hs.sym.h
+
+/-- `dangerously_get_raw_split()` (cargo feature `risky-raw-split`): `split_raw` runs
+    `HKDF(ck, zerolen, 2)` into two zeroed 64-byte arrays and the first `CIPHERKEYLEN` bytes of
+    each are returned. Callable at any time; the state is not touched (`&mut self` is only needed
+    for the hasher). -/
+def rawSplit (S : Suite) (hs : HS) : Bytes × Bytes :=
+  let o := hkdf2 S hs.sym.ck []
+  (key32 o.1, key32 o.2)
 def isInitiator (hs : HS) : Bool := hs.initiator
 def isHandshakeFinished (hs : HS) : Bool := hs.pos == hs.msgs.length
 def isMyTurn (hs : HS) : Bool := hs.myTurn
